@@ -1117,3 +1117,31 @@ func FailFuzz[C any](t *testing.T, s *Sub[C], c C, err error) {
 	writeCase(replayPath(s.Name), s.Name, c, err.Error())
 	t.Fatalf("property violated: %v", err)
 }
+
+// Guarded returns a copy of b that is the front part of a larger buffer - a caller's read buffer holding more than
+// the document, a sub-slice of a file image - with the rest of the buffer (its spare capacity, 64 bytes) filled with
+// a pattern. intact reports whether the code that was given the view left both alone: the document's bytes as they
+// were (a parser does not write to its input) and the bytes behind it untouched (append on the argument would land
+// there).
+func Guarded(b []byte) (view []byte, intact func() error) {
+	const guard = 64
+	big := make([]byte, len(b)+guard)
+	copy(big, b)
+	for i := len(b); i < len(big); i++ {
+		big[i] = byte(0xA5 ^ i)
+	}
+	view = big[:len(b)]
+	return view, func() error {
+		for i := range b {
+			if big[i] != b[i] {
+				return Errf("the input bytes were changed by the call: byte %d of %d is %q, was %q", i, len(b), big[i], b[i])
+			}
+		}
+		for i := len(b); i < len(big); i++ {
+			if big[i] != byte(0xA5^i) {
+				return Errf("the call wrote behind the end of its input: the caller's buffer holds %q at offset %d, %d bytes past the %d-byte document", big[i], i, i-len(b)+1, len(b))
+			}
+		}
+		return nil
+	}
+}
